@@ -263,7 +263,7 @@ pub fn run(ctx: &Ctx, _args: &Args) -> i32 {
     let started = Instant::now();
     let jobs = ctx.jobs;
     let lists = filter_lists();
-    let n_bodies: u64 = ctx.tier.pick(640, 40_000);
+    let n_bodies: u64 = ctx.tier.pick(640, 10_000);
 
     let mut report = run_sharded(jobs, |shard, report| {
         let mut rng = Rng::stream(ctx.seed, shard as u64);
